@@ -204,10 +204,13 @@ def run(ctx):
     check_reference_collectors(ctx, db)
     check_cell_collectors(ctx, db)
     check_flatten(ctx, db)
+    # a repetition kept attached under a reference is mapped by the placement's linear part: exact identities (C11's obligation, shared)
+    from . import C11
+    C11.check_transform_algebra(ctx, db)
 
 
 MANIFEST = dict(
-    text='Decides structural necessary conditions of hierarchy queries on every path: R-COPY (every field of every element/cell/library struct copied by copy_from and by the hand-rolled filter copies, owning fields never aliased), the four Reference::get_* collectors are one clone family (same depth handed down, one output per (element, offset), copy for all but the last offset, placement transform with origin + offset, attached repetition mapped by the same linear part), the apply_repetitions and depth blocks of the four Cell::get_* are identical and have the confirmed shape ([start, finish) range; depth > 0 ? depth - 1 : -1 under depth != 0), Cell::flatten expands only Cell references, collects all four kinds at depth -1 into its own arrays and re-examines the index after remove_unordered. Geometric equality of hierarchical vs flattened shapes is not decided.',
+    text='Decides structural necessary conditions of hierarchy queries on every path: R-COPY (every field of every element/cell/library struct copied by copy_from and by the hand-rolled filter copies, owning fields never aliased), the four Reference::get_* collectors are one clone family (same depth handed down, one output per (element, offset), copy for all but the last offset, placement transform with origin + offset, attached repetition mapped by the same linear part, and Repetition::transform itself is identically m R(rot) diag(1, +-1) on every kind and parameter valuation), the apply_repetitions and depth blocks of the four Cell::get_* are identical and have the confirmed shape ([start, finish) range; depth > 0 ? depth - 1 : -1 under depth != 0), Cell::flatten expands only Cell references, collects all four kinds at depth -1 into its own arrays and re-examines the index after remove_unordered. Geometric equality of hierarchical vs flattened shapes is not decided.',
     note='Trusted: clang front end, gx, sa rules; record layouts come from clang (a new field is picked up automatically). Exemptions: `owner` (belongs to the Python wrapper), Reference.cell/rawcell (non-owning by design).',
     technique='clone-family comparison over α-normalised typed ASTs + record-layout-driven copy completeness/depth rule',
     design='§4 C06')
